@@ -18,7 +18,7 @@ pass=0; fail=0
 for f in "${files[@]}"; do
   prop=$(grep -m1 -o 'property: C[0-9][0-9]' "$f" | cut -d' ' -f2)
   [ -z "$prop" ] && prop=$(python3 -c "import json,sys,os; print(json.load(open(os.path.join(os.path.dirname('$f'),'meta.json')))['property'])" 2>/dev/null)
-  if ! git -C /repo apply "$f" 2>/tmp/selftest.apply.err; then echo "SKIP $f: patch does not apply: $(head -1 /tmp/selftest.apply.err)" | tee -a selftest.log; continue; fi
+  if ! git -C /repo apply "/verif/$f" 2>/tmp/selftest.apply.err; then echo "SKIP $f: patch does not apply: $(head -1 /tmp/selftest.apply.err)" | tee -a selftest.log; continue; fi
   tests="not-run"
   if [ $TESTS = 1 ]; then
     if (cd /repo && CARGO_NET_OFFLINE=true cargo test --workspace --no-fail-fast --offline >/tmp/selftest.tests.log 2>&1); then tests="pass"; else tests="FAIL($(grep -c 'FAILED\|failed' /tmp/selftest.tests.log))"; fi
